@@ -1,9 +1,54 @@
-SRC = ["source/xml_parser.c", "source/byte_buf.c", "source/array_list.c", "source/common.c", "source/error.c", "source/math.c"]
+# C04 — decoders and parsers on arbitrary input (total, memory-safe, documented failure channel, views inside the input)
+XML_SRC = ["source/xml_parser.c", "source/byte_buf.c", "source/array_list.c", "source/common.c", "source/error.c", "source/math.c"]
+ENC_SRC = ["source/encoding.c", "source/arch/intel/encoding_avx2.c", "source/byte_buf.c", "source/common.c", "source/error.c", "source/math.c"]
+URI_SRC = ["source/uri.c", "source/byte_buf.c", "source/array_list.c", "source/common.c", "source/error.c", "source/math.c", "source/string.c"]
+BB_SRC = ["source/byte_buf.c", "source/common.c", "source/error.c", "source/array_list.c", "source/string.c", "source/math.c"]
+HOST_SRC = ["source/host_utils.c", "source/byte_buf.c", "source/common.c", "source/error.c", "source/math.c"]
+
+
 def spec(tier):
     units, jobs = {}, []
-    for n in (3, 5):
-      for acts in (33, 3, 13, 23, 20):
-        u = "x%d_%d" % (n, acts)
-        units[u] = dict(harness=["C04/h_xml.c"], sources=SRC, stubs=["base.c", "alloc_direct.c", "memchr.c", "memcmp_loop.c", "mem0.c"], defines={"N": n, "ACTS": acts})
-        jobs.append(dict(unit=u, entry="h_xml_parse", unwind=n + 3, unwind_is_property=True, timeout=150, what="acts %02d n %d" % (acts, n)))
-    return dict(units=units, jobs=jobs, meta={})
+    quick = tier == "quick"
+    # XML: whole aws_xml_parse on N arbitrary bytes; callback action script fixed per job (abort / descend-then-abort)
+    for n in ([3, 4, 5] if quick else [2, 3, 4, 5, 6, 7]):
+        for acts, txt in ((33, "root callback aborts"), (23, "root callback descends (aws_xml_node_traverse), child callback aborts")):
+            u = "xml_%d_%d" % (n, acts)
+            units[u] = dict(harness=["C04/h_xml.c"], sources=XML_SRC, stubs=["base.c", "alloc_direct.c", "memchr.c", "memcmp_loop.c", "mem0.c"], defines={"N": n, "ACTS": acts})
+            jobs.append(dict(unit=u, entry="h_xml_parse", unwind=n + 3, unwind_is_property=True, timeout=240 if quick else 2400,
+                             bounds="document of %d arbitrary bytes; %s" % (n, txt),
+                             what="aws_xml_parse: preamble loop, next-sibling, node declaration split, traverse loop: no out-of-bounds access, terminates, error code on failure, name/attribute views inside the input"))
+    # base64 / hex / UTF-8 on arbitrary text (harness shared with C05)
+    for l in ([0, 1, 3, 4, 8, 36] if quick else [0, 1, 2, 3, 4, 5, 8, 12, 32, 36]):
+        u = "enc_L%d" % l
+        units[u] = dict(harness=["C05/h_codec.c"], sources=ENC_SRC, stubs=["base.c", "alloc_direct.c"], defines={"L": l}, extra_inc=["stubs/simd"], native_cflags=["-mavx2"])
+        jobs.append(dict(unit=u, entry="h_b64_decode_arbitrary", unwind=max(l, 8) + 36, bounds="base64 text of %d arbitrary bytes, both CPU paths" % l,
+                         what="base64 decode on arbitrary text: in-bounds, verdict documented, nothing beyond output capacity"))
+        if l <= 8:
+            jobs.append(dict(unit=u, entry="h_hex_decode_arbitrary", unwind=l + 6, bounds="hex text of %d arbitrary bytes" % l, what="hex decode on arbitrary text"))
+            if l >= 1:
+                jobs.append(dict(unit=u, entry="h_utf8_chunking", unwind=l + 4, bounds="UTF-8 text of %d arbitrary bytes" % l, what="UTF-8 validator on arbitrary bytes, any chunking"))
+    # unsigned integer parsing (harness shared with C01)
+    units["u64"] = dict(harness=["C01/h_cur.c"], sources=BB_SRC, stubs=["base.c", "alloc_direct.c", "memchr.c", "mem0.c"], defines={"N": 8, "NDIG": 21})
+    for e in ("h_parse_u64_dec", "h_parse_u64_hex"):
+        jobs.append(dict(unit="u64", entry=e, unwind=23, backend="kissat", bounds="0..21 arbitrary bytes", what="unsigned-integer parsing on arbitrary bytes"))
+    # percent-decoding and query-string iteration (harness shared with C13)
+    for n in ([0, 1, 3, 5] if quick else range(0, 10)):
+        u = "uri_N%d" % n
+        units[u] = dict(harness=["C13/h_uri.c"], sources=URI_SRC, stubs=["base.c", "alloc_direct.c", "memchr.c", "mem0.c"], defines={"N": n, "PRE": 1})
+        jobs.append(dict(unit=u, entry="h_uri_decode_arbitrary", unwind=n + 5, bounds="%d arbitrary bytes" % n, what="percent-decoding on arbitrary bytes"))
+        jobs.append(dict(unit=u, entry="h_query_iteration", unwind=n + 5, bounds="query string of %d arbitrary bytes" % n, what="query-string iteration on arbitrary bytes; views inside the input"))
+    for n in ([0, 1, 2, 4, 7] if quick else range(0, 12)):
+        u = "ip_N%d" % n
+        units[u] = dict(harness=["C04/h_misc.c"], sources=HOST_SRC, stubs=["base.c", "alloc_direct.c", "memchr.c", "memcmp_loop.c", "mem0.c"], defines={"N": n})
+        jobs.append(dict(unit=u, entry="h_ipv6_arbitrary", unwind=n + 4, bounds="%d arbitrary bytes, plain and URI-encoded zone form" % n, what="IPv6 literal check on arbitrary bytes"))
+    meta = dict(
+        functions_encoded=["xml_parser.c: aws_xml_parse, s_node_next_sibling, s_load_node_decl, aws_xml_node_traverse, accessors", "encoding.c + encoding_avx2.c decoders",
+                           "byte_buf.c s_read_unsigned", "uri.c: aws_byte_buf_append_decoding_uri, aws_query_string_next_param/params", "host_utils.c aws_host_utils_is_ipv6"],
+        bounds="XML documents of 3..5 (quick) / 2..7 bytes; base64 text up to 36; hex/UTF-8 up to 8; digits up to 21; URI/query up to 5/9; IPv6 up to 7/11",
+        stubs=["base.c, alloc_direct.c, memchr.c, memcmp_loop.c, mem0.c", "stubs/simd lane models for the AVX2 decoder"],
+        out=["NOT DECIDED (encodings do not fit: >12 GB or >240 s even at 2 input bytes): JSON (cJSON), CBOR decoder, aws_uri_init_parse, "
+             "s_advance_to_closing_tag (XML body / skip paths)", "date-time parsing, UUID, IPv4 (sscanf-based)", "inputs longer than the bounds"],
+        assumptions=["XML callback behaviour restricted to the two scripts per job (abort; descend then abort)"])
+    pre = [dict(name="SIMD models == hardware intrinsics", timeout=120,
+                cmd="gcc -O1 -mavx2 -w -o $VERIF_SCRATCH/simd_validate $VERIF/tools/simd_validate.c && $VERIF_SCRATCH/simd_validate")]
+    return dict(units=units, jobs=jobs, meta=meta, prechecks=pre, max_parallel=12)
